@@ -374,8 +374,8 @@ static void part_long(const Args& a) {
 //   - a byte that cannot start a sequence              -> open (the statement does not speak about it; counted)
 //   - otherwise, if every sequence is well-formed UTF-8 of a scalar value -> must return normally
 //   - complete but ill-formed (bad continuation, overlong, surrogate, > U+10FFFF) -> open
-//   The XML escaper works byte-wise and never decodes: it must return normally on well-formed strings; for the
-//   rest only the no-over-read demand applies (open, counted).
+//   The XML escaper works byte-wise and never decodes: only the no-over-read demand applies to it here (its outcomes are
+//   counted; what it does with well-formed strings is judged by the round-trip parts).
 enum Expect { RET = 0, THROW_OOR = 1, THROW_ANY = 2, OPEN = 3 };
 static inline int lead_len(uint8_t b) { return b < 0x80 ? 1 : b < 0xC0 ? 0 : b < 0xE0 ? 2 : b < 0xF0 ? 3 : b < 0xF8 ? 4 : 0; }
 static inline bool cont(uint8_t b) { return (b & 0xC0) == 0x80; }
@@ -493,7 +493,7 @@ static void check_bytes(const Slots& slots, ByteCounters& bc, const uint8_t* s, 
         const int o = oc[fn] = call_fn(fn, out, p);
         ++*bc.evals; ++*bc.outc[fn][o];
         std::string what;
-        if (m.e == RET && o != 0) what = std::string("throws-on-wellformed-utf8(") + OUTCOME[o] + ")";
+        if (fn != 2 && m.e == RET && o != 0) what = std::string("throws-on-wellformed-utf8(") + OUTCOME[o] + ")";
         else if (fn != 2 && m.e == THROW_OOR && o == 0) what = "no-exception-on-cut-off-sequence";
         else if (fn != 2 && m.e == THROW_OOR && o != 1) what = std::string("wrong-exception-on-cut-off-sequence(") + OUTCOME[o] + ")";
         else if (fn != 2 && m.e == THROW_ANY && o == 0) what = "no-exception-on-cut-off-sequence";
